@@ -111,7 +111,9 @@ var algos = map[string]int{"downpass": acr.ALGO_DOWNPASS, "deltran": acr.ALGO_DE
 var stateNamePool = []string{"A", "B", "C", "D", "E", "F", "st1", "state two", "x/y", "0", "1", "A;B", "é"}
 
 func genAcr(t *rapid.T, thorough bool) AcrCase {
-	o := gen.Opts{MinTips: 3, MaxTips: 12, BigTips: 40, Rooted: -1, MaxDeg: 6, Lens: gen.AnyPresence, LenVals: gen.DyadicZ, InnerNames: gen.AnyPresence}
+	// input trees may already carry node comments (annotations of an earlier run): the states written
+	// on the tree must replace them
+	o := gen.Opts{MinTips: 3, MaxTips: 12, BigTips: 40, Rooted: -1, MaxDeg: 6, Lens: gen.AnyPresence, LenVals: gen.DyadicZ, InnerNames: gen.AnyPresence, Comments: rapid.IntRange(0, 2).Draw(t, "comments") == 0}
 	if thorough {
 		o.BigTips = 150
 	}
